@@ -272,14 +272,15 @@ func Run(rng *rand.Rand, maxSteps int, gateMu *sync.Mutex, allowBoth bool) *Scen
 			// two closers at once: the first is held between its check of the
 			// done flag and the closing of it, the second starts meanwhile
 			gateMu.Lock()
+			drv.InstallHooks()
 			hold := make(chan struct{})
 			arrived := make(chan struct{}, 2)
-			smtp.VerifGate = func(c *smtp.Conn, name string) {
+			drv.SetExtraGate(func(c *smtp.Conn, name string) {
 				if name == "close-after-check" {
 					arrived <- struct{}{}
 					<-hold
 				}
-			}
+			})
 			sc.Events = append(sc.Events, Event{"ev": "call", "c": "c1", "kind": cl["c1"].kind})
 			call("c1")
 			select {
@@ -293,7 +294,7 @@ func Run(rng *rand.Rand, maxSteps int, gateMu *sync.Mutex, allowBoth bool) *Scen
 			case <-time.After(50 * time.Millisecond):
 			}
 			close(hold)
-			smtp.VerifGate = nil
+			drv.SetExtraGate(nil)
 			gateMu.Unlock()
 			winner = true
 			// (with two concurrent closers the harness cannot know which one
